@@ -5,7 +5,7 @@ from . import cands, ledger, refmodel, world
 
 class Config:
     def __init__(self, name, make_universe, families, prop_tags, check_unchanged, now_slack=0, both_forms=False,
-                 setup=None, conservation=False, own_assembly=False):
+                 setup=None, conservation=False, own_assembly=False, horizon='head'):
         self.name = name
         self.make_universe = make_universe
         self.families = families
@@ -15,6 +15,8 @@ class Config:
         self.setup = setup
         self.conservation = conservation
         self.own_assembly = own_assembly
+        # 'head' / 'all' / None: parents at which the candidates are offered once more with the checkpoint horizon AT the parent
+        self.horizon = horizon
 
 
 _cand_cache = {}
@@ -137,11 +139,46 @@ def run_histories(cfg, uni, hists, now_build):
                     except Exception as e:
                         out.append(('accepted-state-mismatch', "state after accepting %s unreadable: %r" % (c.name, e),
                                     hist, P.path, c.name))
+            if cfg.horizon == 'all' or (cfg.horizon == 'head' and P is head):
+                horizon_pass(cfg, cs, P, cl, hist, st, out)
         if cfg.own_assembly:
             own_assembly(cfg, uni, cs, head, hist, st, out)
         if len(out) > 60:
             break
     return st, out[:60], hist_stats
+
+
+def horizon_pass(cfg, cs, P, cl, hist, st, out):
+    """the same candidates with the checkpoint horizon (a scaled stand-in for the shipped 163,000, no checkpoint ids) at the
+    parent's height: every candidate sits just ABOVE the horizon whatever height it states, so full validation is due and
+    the reference verdict is the same as without a horizon"""
+    from skepticoin import consensus
+    saved = consensus.MAX_KNOWN_HASH_HEIGHT
+    consensus.MAX_KNOWN_HASH_HEIGHT = P.height
+    try:
+        for c in cl:
+            blk = c.wire() or c.block
+            if blk is None:
+                continue
+            st['transitions'] += 1
+            st['offered_just_above_a_horizon'] = st.get('offered_just_above_a_horizon', 0) + 1
+            try:
+                cs.add_block(blk, c.now)
+            except Exception:
+                continue
+            bad = c.tags() & cfg.prop_tags
+            if bad:
+                try:
+                    lying = blk.header.summary.height <= P.height
+                except Exception:
+                    lying = False
+                out.append(('stated-height-below-horizon-skips-validation' if lying else 'accepted-just-above-horizon:' + c.name,
+                            "block '%s' on parent %s (height %d) accepted with the checkpoint horizon at height %d although it "
+                            "breaks: %s%s" % (c.name, '/'.join(map(str, P.path)) or '<root>', P.height, P.height, sorted(bad),
+                                              "; it STATES height %d, i.e. one at or below the horizon" % blk.header.summary.height
+                                              if lying else ''), hist, P.path, c.name))
+    finally:
+        consensus.MAX_KNOWN_HASH_HEIGHT = saved
 
 
 def own_assembly(cfg, uni, cs, head, hist, st, out):
